@@ -760,3 +760,5 @@ PROPS["C11"]["facts"] = PROPS["C11"].get("facts", []) + ['bodies/cache:cachePoli
 PROPS["C16"]["facts"] = PROPS["C16"].get("facts", []) + ['bodies/events:.newExecutionDoneEvent']
 PROPS["C17"]["facts"] = PROPS["C17"].get("facts", []) + ['bodies/execution:execution.AttemptStartTime', 'bodies/execution:execution.Canceled', 'bodies/execution:execution.Context', 'bodies/execution:execution.ElapsedAttemptTime', 'bodies/execution:execution.ElapsedTime', 'bodies/execution:execution.StartTime']
 PROPS["C18"]["facts"] = PROPS["C18"].get("facts", []) + ['bodies/client:.NewUnaryClientInterceptor', 'bodies/http:.NewRequest', 'bodies/http:.NewRequestWithExecutor', 'bodies/http:.NewRoundTripper', 'bodies/http:.NewRoundTripperWithExecutor', 'bodies/server:.NewServerInHandle', 'bodies/server:.NewUnaryServerInterceptor']
+
+PROPS["C15"]["required_theorems"] += ["Failsafe.Props.C15." + t for t in ["closed_after_listener", "got_after_listener"]]
